@@ -15,3 +15,5 @@ for c in "$@"; do
 done
 git checkout -- . && git status --short | head -3
 rm -rf "$ZVERIF_ROOT"
+# rebuild the engine against the clean tree, so that /verif/target never keeps a binary built from a changed /repo
+(cd /verif && ./check build > /dev/null 2>&1)
